@@ -315,6 +315,15 @@ PartLists == {pl \in UNION {[1..k -> 1..MaxRdm] : k \in 1..MaxRdm} : Cardinality
 \* participant has an own stimulus list; pvar = 1 lists the second participant's stimuli in reverse order.
 FileOrder(i, d, r) == IF d.shape = "1pmt" THEN TaskOrder(i.order, i.layout[MaPos(i.layout)[r]])
                       ELSE IF i.pvar = 1 /\ r = 2 THEN Reverse(i.order) ELSE i.order
+\* order of the variables of a multi-participant .mat file: the stimulus lists are stored in the order of
+\* i.parts, the vectors in the order i.uperm (a permutation), either after them or woven between them.
+\* Variables are NAMED after the participant, so their order carries no meaning.
+VarOrder(i) ==
+  LET k == Len(i.parts)
+      sv == [r \in 1..k |-> [v |-> "stimuli", r |-> r]]
+      uv == [r \in 1..k |-> [v |-> "rdmutv", r |-> i.uperm[r]]] IN
+  IF i.weave = 0 THEN uv \o sv
+  ELSE [j \in 1..(2 * k) |-> IF j % 2 = 1 THEN sv[(j + 1) \div 2] ELSE uv[j \div 2]]
 MeadowsExpectM(d, i, mode) ==
   LET nf == CASE d.shape = "1p1t" -> 1 [] d.shape = "mp1t" -> Len(i.parts) [] OTHER -> Len(MaPos(i.layout))
       \* source RDMs (participants / multi-arrangement tasks of the file) that make up the rows
@@ -328,6 +337,7 @@ MeadowsExpectM(d, i, mode) ==
       file |-> [r \in 1..nf |-> [order |-> FileOrder(i, d, r), vec |-> FileVec(r, FileOrder(i, d, r))]],
       participant |-> CASE d.shape = "mp1t" -> <<>> [] OTHER -> [r \in 1..nr |-> d.part],
       plist |-> IF d.shape = "mp1t" THEN i.parts ELSE <<>>,
+      varorder |-> IF d.shape = "mp1t" THEN VarOrder(i) ELSE <<>>,
       task |-> CASE d.shape = "mp1t" -> [r \in 1..nr |-> d.tname] [] OTHER -> <<>>,
       tpos |-> IF d.shape = "1pmt" THEN [k \in 1..nr |-> MaPos(i.layout)[rows[k]]] ELSE <<>>,   \* 1-based
       task_index |-> CASE d.shape = "1p1t" -> <<NumVal(d.tidx)>>
@@ -418,12 +428,16 @@ InitMeadows ==
          /\ \E n \in StimSizes : \E order \in Perms(n) :
             \E parts \in (IF nm.shape = "mp1t" THEN PartLists ELSE {<<>>}),
                layout \in (IF nm.shape = "1pmt" THEN TaskLayouts ELSE {<<>>}) :
-            \E pvar \in (IF nm.shape = "mp1t" /\ Len(parts) >= 2 THEN {0, 1} ELSE {0}) :
-            inp = [name |-> nm, order |-> order, sort |-> sort, parts |-> parts, layout |-> layout, pvar |-> pvar]
+            \E pvar \in (IF nm.shape = "mp1t" /\ Len(parts) >= 2 THEN {0, 1} ELSE {0}),
+               uperm \in (IF nm.shape = "mp1t" THEN Perms(Len(parts)) ELSE {<<>>}),
+               weave \in (IF nm.shape = "mp1t" /\ Len(parts) >= 2 THEN {0, 1} ELSE {0}) :
+            inp = [name |-> nm, order |-> order, sort |-> sort, parts |-> parts, layout |-> layout, pvar |-> pvar,
+                   uperm |-> uperm, weave |-> weave]
       \/ /\ ~CoreName(nm)
          /\ inp = [name |-> nm, order |-> <<3, 1, 2>>, sort |-> sort,
                    parts |-> IF nm.shape = "mp1t" THEN <<2, 1>> ELSE <<>>,
-                   layout |-> IF nm.shape = "1pmt" THEN <<0, 1, 1>> ELSE <<>>, pvar |-> 0]
+                   layout |-> IF nm.shape = "1pmt" THEN <<0, 1, 1>> ELSE <<>>, pvar |-> 0,
+                   uperm |-> IF nm.shape = "mp1t" THEN <<2, 1>> ELSE <<>>, weave |-> 0]
 InitMne == /\ sec = "mne" /\ stage = "input" /\ out = <<>>
            /\ \E ne \in 1..3, nc \in 1..3, nt \in 1..3, sf \in {20, 100}, first \in {0, 2} :
                 \E codes \in [1..ne -> {11, 12}] :
@@ -503,6 +517,10 @@ MeadowsAssoc == (sec = "meadows" /\ stage = "done") =>
    /\ (inp.sort = 0 => out.expect.conds = inp.order)
    /\ \A k \in 1..Len(out.expect.alt.vec) :                               \* a permutation of the file's values
         Range(out.expect.alt.vec[k]) = Range(out.expect.file[out.expect.alt.rows[k]].vec)
+   /\ (out.expect.shape = "mp1t" =>                                        \* every variable is written once
+         \A r \in 1..Len(inp.parts) : \A v \in {"stimuli", "rdmutv"} :
+            Cardinality({j \in 1..Len(out.expect.varorder) :
+                           out.expect.varorder[j] = [v |-> v, r |-> r]}) = 1)
    /\ \A r \in 1..Len(out.expect.file) :                                   \* the file itself is token-consistent
         AssocRow(r, out.expect.file[r].order, out.expect.file[r].vec)
 \* d, e: structural
